@@ -7,5 +7,5 @@ mkdir -p bin run evidence replays
 (cd tools/goyacc && go build -o ../../bin/goyacc golang.org/x/tools/cmd/goyacc)
 (cd tools && go build -o ../bin/extract ./cmd/extract && go build -tags verif -o ../bin/harness ./cmd/harness)
 VERIF_GOYACC="$PWD/bin/goyacc" ./bin/extract -repo "${VERIF_REPO:-/repo}" -out lean/Anko/Gen > run/extract.json || true
-(cd lean && lake build Anko ankomodel)
+(cd lean && lake build Anko ankomodel && for c in 01 02 03 04 05 06 07 08 09 10 11 12 13 14 15 16 17 18 19 20; do lake build Anko.Props.C$c; done)
 echo "setup done"
